@@ -132,10 +132,14 @@ def runReq (args : List String) : String :=
     | some t, some x, some env =>
       let out := parseRequirement env x t
       let calls := if out.calls.isEmpty then "-" else ",".intercalate (out.calls.map showCall)
-      let fin := match out.fin with
-        | .ok r =>
+      let showOk := fun (r : ReqOk) =>
           let extras := if r.extras.isEmpty then "-" else ";".intercalate (r.extras.map hexOfBytes')
           s!"ok name={hexOfBytes' r.name} extras={extras} kind={showReqKind r.kind} marker={dumpTree r.marker} w={showWarns r.warns}"
+      let fin := match out.fin with
+        | .ok r => showOk r
+        | .urlEndsOk alts r =>
+          "urlendsok " ++ " ".intercalate (alts.map fun (ce : Char × PErr) => s!"{ce.1.toNat}:{showErrKind ce.2.kind}:{ce.2.start}:{ce.2.len}") ++
+            " else:" ++ showOk r
         | .err e => s!"err {showErrKind e.kind} {e.start} {e.len}"
         | .panic s => s!"panic {s}"
         | .urlEnds alts other =>
